@@ -94,6 +94,20 @@ fn check_loaded(kp: &KeyPair, want_alg: Alg, z_spki: &[u8], z_raw: &[u8], what: 
         f.push(Finding::new("KEY-ALGORITHM", what, format!("loaded as {:?}, expected {}", kp.algorithm(), want_alg.name())));
         return;
     }
+    // the key's own statements about which algorithms it goes with
+    for a in backend_algs() {
+        let ra = rc_alg(a).unwrap();
+        if kp.is_compatible(ra) != (ra == kp.algorithm()) {
+            f.push(Finding::new("KEY-COMPATIBLE", what, format!("is_compatible({}) = {} for a key whose algorithm() is {:?}", a.name(), kp.is_compatible(ra), kp.algorithm())));
+        }
+    }
+    let compat: Vec<&'static rcgen::SignatureAlgorithm> = kp.compatible_algs().collect();
+    if !compat.iter().any(|a| *a == kp.algorithm()) || compat.iter().any(|a| !kp.is_compatible(a)) {
+        f.push(Finding::new("KEY-COMPATIBLE", what, format!("compatible_algs() = {:?} does not consist of algorithm() and algorithms the key says it is compatible with", compat)));
+    }
+    if kp.as_remote().is_some() {
+        f.push(Finding::new("KEY-COMPATIBLE", what, "a locally held key claims to be remote"));
+    }
     if kp.der_bytes() != z_raw || kp.public_key_raw() != z_raw {
         f.push(Finding::new("KEY-PUBLIC-KEY", what, "public key differs from the one OpenSSL derives from the private key"));
     }
